@@ -233,6 +233,20 @@ class C13(Scenario):
         for n in range(nn):
             add(n, ["pairs", None, sample_pairs(n, 20), True])
             add(n, ["snapall", None, 1, HI], "snap")
+        # objects assembled from components of equal-but-distinct operands: after all the
+        # comparisons above (which may have re-pointed operand tuples) they must still
+        # round-trip
+        for w in P.get("watch", []):
+            for n in range(nn):
+                if n in restarted or w not in pools[n]:
+                    continue
+                tw = [list(p) for p in equalish[n] if p[0] < RT_BASE and p[1] < RT_BASE][:60]
+                if tw and rng.random() < 0.7:
+                    add(n, ["pairs", None, tw, False])
+                for how in ("pickle", "evalrepr"):
+                    out = RT_BASE + ctr["rt"]
+                    ctr["rt"] += 1
+                    add(n, ["roundtrip", out, w, how])
         return {"nodes": nodes, "units": units}
 
     # ------------------------------------------------------------------ expansion
